@@ -386,6 +386,11 @@ class VariableBoundVisitor(ModelVisitor):
         # This only exists until we flatten out array references
         pass
                 
+    def visit_expr_indexed_dynref(self, e):
+        # A reference to the dynamic constraint of an object: the object 
+        # itself is not a variable, and no bounds are taken from the reference
+        pass
+        
     def visit_expr_fieldref(self, e):
         if self.phase == 0:
             # Collect fields that may just be referenced
